@@ -275,7 +275,7 @@ def getport_bench(name, user_dw=16, native_dw=8, fairness=3):
 
 CONFIGS = {
     "cdc_d4_fair3": (dict(cmd_depth=4, wdata_depth=4, rdata_depth=4, fairness=3), 22, 36, "qt"),
-    "wrcontract_cdc_d4_fair3": (dict(cmd_depth=4, wdata_depth=4, rdata_depth=4, fairness=3, wr_contract=True), 20, 30, "qt"),
+    "wrcontract_cdc_d4_fair3": (dict(cmd_depth=4, wdata_depth=4, rdata_depth=4, fairness=3, wr_contract=True), 16, 24, "qt"),
     "unbounded_reads_cdc_d4_fair3": (dict(cmd_depth=4, wdata_depth=4, rdata_depth=4, fairness=3, bounded_reads=False), 18, 24, "qt"),
     "unbounded_reads_cdc_default_depths_fair3": (dict(cmd_depth=4, wdata_depth=16, rdata_depth=16, fairness=3, bounded_reads=False), 20, 30, "qt"),
     "unbounded_reads_cdc_default_depths_fair6": (dict(cmd_depth=4, wdata_depth=16, rdata_depth=16, fairness=6, bounded_reads=False), 0, 60, "t"),
@@ -305,7 +305,7 @@ def run(ctx):
         if n.startswith("wrcontract"):
             if ctx.tier == "quick" or ctx.tier == "thorough":
                 K = kq if ctx.tier == "quick" else kt
-                ctx.add(n, K, timeout=900, min_K=16, chunk=4, diff_cycles=10, cover_required=False,
+                ctx.add(n, K, timeout=900, min_K=14, chunk=4, diff_cycles=10, cover_required=False,
                         bads=["write_command_offered_to_controller_before_its_data_word"])
             continue
         if ctx.tier == "quick" and "q" in tiers:
